@@ -341,6 +341,20 @@ func runC12(c *Ctx) {
 			R.Ob("(*Conn).handleAuth/accept condition equals advertisement", c.P.InstrPos(site), strings.Join(got, "&&") == `(*Conn).authAllowed(param0) == true`, fmt.Sprintf("AUTH accepted under %v", got))
 		}
 	}
+	// the advertised RCPTMAX value is the limit the RCPT handler applies, per transaction: refusal exactly when the
+	// transaction's own accepted recipients have reached it
+	if f := c.A.Func("(*Conn).handleRcpt"); f != nil {
+		n452 := 0
+		for _, site := range s.Find(f, "reply:452") {
+			n452++
+			c.obUnreach("reply 452", site, `builtin:len(Conn.recipients) < Server.MaxRecipients`)
+			c.obUnreach("reply 452", site, `Server.MaxRecipients <= 0`)
+		}
+		for _, site := range c.Sites(lRcpt) {
+			c.obUnreach("Session.Rcpt", site, `Server.MaxRecipients > 0`, `builtin:len(Conn.recipients) >= Server.MaxRecipients`)
+		}
+		R.Ob("(*Conn).handleRcpt/recipient limit refusal found", c.P.Pos(f.Pos()), n452 >= 1, "no 452 reply in handleRcpt")
+	}
 	// the parameter gates compare the keyword with upper-case constants: every keyword parseArgs stores (with or
 	// without a value) is upper-cased, so "smtputf8" meets the same gate as "SMTPUTF8" (250 / 504, not 500)
 	if f := c.A.Func("parseArgs"); f != nil {
